@@ -3,7 +3,7 @@ import re
 
 from sa.paths import gate_check, returns_true_only_if
 from sa.flow import origin_chain
-from sa.match import holds
+from sa.match import holds, const_value
 from sa.build import AnalysisBroken
 from props.common import declref
 
@@ -185,7 +185,18 @@ def run(ck):
             ck.note('output stream on %s at %s is not part of the fetch command' % (f.text(args[0]) if args else '?', f.loc(i)))
     ck.floor('C30.own', 'output-file writers of the fetch command', len(fetch_writers), 1)
     # the output path is never produced by a filesystem-level copy / move / link: such a file's bytes were never hashed here
-    FS_PRODUCERS = ('std::filesystem::copy_file', 'std::filesystem::copy', 'std::filesystem::rename', 'std::filesystem::create_hard_link',
+    # the verified payload replaces the file: the output stream is opened with a constant mode that truncates (no in / app / ate bit)
+    IN_, OUT_, ATE_, APP_, TRUNC_, BIN_ = 8, 16, 2, 1, 32, 4          # std::ios_base::openmode bits of libstdc++
+    for f, w, kind in fetch_writers:
+        if kind != 'stream' or f.nodes[w]['k'] not in ('CXXConstructExpr', 'CXXTemporaryObjectExpr'):
+            continue
+        a_ = [x for x in f.call_args(w) if f.nodes[x]['k'] != 'CXXDefaultArgExpr']
+        mode = const_value(f, a_[1]) if len(a_) > 1 else OUT_
+        ok_mode = mode is not None and not (mode & (IN_ | ATE_ | APP_))
+        ck.ob('C30.flow', 'C30.flow/%s/truncating-open' % f.name, ok_mode, f.loc(w),
+              'the fetch output is opened write-only with a constant mode without in/app/ate, i.e. truncated: no byte of an earlier file survives '
+              'behind the verified payload (mode value: %s)' % mode)
+    FS_PRODUCERS = ('std::filesystem::resize_file', 'truncate', 'ftruncate', 'std::filesystem::copy_file', 'std::filesystem::copy', 'std::filesystem::rename', 'std::filesystem::create_hard_link',
                     'std::filesystem::create_symlink', 'rename', 'std::rename', 'link', 'symlink')
     fs_made = []
     for f in scope:
@@ -193,10 +204,11 @@ def run(ck):
             c = f.nodes[i].get('callee') or ''
             if c in FS_PRODUCERS:
                 a = f.call_args(i)
-                if len(a) >= 2 and any(f.nodes[j]['k'] == 'DeclRefExpr' and f.nodes[j].get('n') == 'resolved_output' for j in f.walk(a[1])):
+                tgt_ix = 0 if c.endswith(('resize_file', 'truncate')) else 1
+                if len(a) > tgt_ix and any(f.nodes[j]['k'] == 'DeclRefExpr' and f.nodes[j].get('n') == 'resolved_output' for j in f.walk(a[tgt_ix])):
                     fs_made.append((f, i, c))
     ck.ob('C30.own', 'C30.own/no-filesystem-level-producer', not fs_made, fs_made[0][0].loc(fs_made[0][1]) if fs_made else '',
-          'the fetch command never creates its output by copying, renaming or linking another file onto it (bytes that were not hashed against the manifest)'
+          'the fetch command never creates, extends or shrinks its output by copying, renaming, linking or resizing (bytes that were not hashed against the manifest)'
           + ('' if not fs_made else ' — %s' % fs_made[0][2]))
 
     for f, w, kind in fetch_writers:
